@@ -34,7 +34,10 @@ pub fn tol(st: &State) -> Tol {
     // 20 times the conditioning-aware bound 256 u / sigma x magnitude (sigma = 1) that decides every ill-conditioned
     // cell of the other families.
     let slack = if mag > 1e6 * l { 1e-12 } else { 1e-9 };
-    Tol { pos: slack * mag, neg_area: 1e-9 * l.powi(st.dim as i32 - 1), l, mag, dim: st.dim, slack }
+    // negligible face: 1e-9 L^(d-1), or - far from the origin - 256 times the rounding residue u x magnitude x L^(d-2) that
+    // the signed triangles of a plane which only touches the cell leave behind (no effect unless magnitude > 1e4 L)
+    let neg_area = 1e-9 * l.powi(st.dim as i32 - 1) + 256. * f64::EPSILON * mag * l.powi(st.dim as i32 - 2);
+    Tol { pos: slack * mag, neg_area, l, mag, dim: st.dim, slack }
 }
 
 pub fn replay_text(check: &str, st: &State, extra: &[(&str, String)]) -> String {
